@@ -197,12 +197,12 @@ func (tt *TermTab) App(op string, w int, args ...*Term) *Term {
 	return tt.mk(&Term{op: op, w: w, args: cp})
 }
 
-func (tt *TermTab) Not(a *Term) *Term         { return tt.App("not", 0, a) }
-func (tt *TermTab) And(a ...*Term) *Term      { return tt.App("and", 0, a...) }
-func (tt *TermTab) Or(a ...*Term) *Term       { return tt.App("or", 0, a...) }
-func (tt *TermTab) Eq(a, b *Term) *Term       { return tt.App("=", 0, a, b) }
-func (tt *TermTab) Ite(c, a, b *Term) *Term   { return tt.App("ite", a.w, c, a, b) }
-func (tt *TermTab) ToFP(bits *Term) *Term     { return tt.App("(_ to_fp 11 53)", sortF64, bits) }
+func (tt *TermTab) Not(a *Term) *Term       { return tt.App("not", 0, a) }
+func (tt *TermTab) And(a ...*Term) *Term    { return tt.App("and", 0, a...) }
+func (tt *TermTab) Or(a ...*Term) *Term     { return tt.App("or", 0, a...) }
+func (tt *TermTab) Eq(a, b *Term) *Term     { return tt.App("=", 0, a, b) }
+func (tt *TermTab) Ite(c, a, b *Term) *Term { return tt.App("ite", a.w, c, a, b) }
+func (tt *TermTab) ToFP(bits *Term) *Term   { return tt.App("(_ to_fp 11 53)", sortF64, bits) }
 func (tt *TermTab) Extract(hi, lo int, a *Term) *Term {
 	if a.isConst() {
 		return tt.Const(hi-lo+1, a.c>>uint(lo))
